@@ -59,16 +59,28 @@ Proof. intros. unfold aget, aset. cbn [afind]. now rewrite String.eqb_refl. Qed.
 Lemma aget_aset_other : forall a x y o, x <> y -> aget (aset a x o) y = aget a y.
 Proof. intros a x y o Hne. unfold aget, aset. cbn [afind]. apply String.eqb_neq in Hne. now rewrite Hne. Qed.
 
-Lemma local_app : forall o1 o2, local (o1 ++ o2) = true <-> local o1 = true /\ local o2 = true.
-Proof. intros. unfold local. rewrite forallb_app. apply andb_true_iff. Qed.
+Lemma origin_eqb_local : forall o o', origin_eqb o o' = true -> origin_local o = origin_local o'.
+Proof. intros [] [] H; cbn in *; try reflexivity; discriminate. Qed.
 
-Lemma local_aunion : forall a xs, local (aunion a xs) = true <-> forall x, In x xs -> local (aget a x) = true.
+Lemma local_oadd : forall o acc, local (oadd o acc) = true -> origin_local o = true /\ local acc = true.
 Proof.
-  intros a xs. unfold aunion. induction xs as [|y t IH]; cbn [flat_map].
-  - split; [intros _ x []|reflexivity].
-  - rewrite local_app, IH. split.
-    + intros [H1 H2] x [->|Hin]; auto.
-    + intros H. split; [apply H; now left|intros x Hx; apply H; now right].
+  intros o acc H. unfold oadd in H. destruct (existsb (origin_eqb o) acc) eqn:E.
+  - split; [|exact H]. apply existsb_exists in E. destruct E as [o' [Hin He]].
+    unfold local in H. rewrite forallb_forall in H. rewrite (origin_eqb_local _ _ He). auto.
+  - cbn in H. now apply andb_true_iff in H.
+Qed.
+
+Lemma local_app : forall o1 o2, local (ounion o1 o2) = true -> local o1 = true /\ local o2 = true.
+Proof.
+  induction o1 as [|o t IH]; intros o2 H; cbn [ounion fold_right] in H; [split; [reflexivity|exact H]|].
+  apply local_oadd in H. destruct H as [Ho Ht]. destruct (IH _ Ht) as [H1 H2]. split; [|exact H2].
+  cbn. now rewrite Ho.
+Qed.
+
+Lemma local_aunion : forall a xs, local (aunion a xs) = true -> forall x, In x xs -> local (aget a x) = true.
+Proof.
+  intros a xs. unfold aunion. induction xs as [|y t IH]; cbn [fold_right]; intros H x Hin; [destruct Hin|].
+  apply local_app in H. destruct H as [H1 H2]. destruct Hin as [<-|Hin]; auto.
 Qed.
 
 Lemma afind_none_notin : forall a x, ~ In x (akeys a) -> afind a x = None.
@@ -86,8 +98,8 @@ Proof.
   destruct (String.eqb k x) eqn:E; [|exact IH]. apply String.eqb_eq in E. subst. now left.
 Qed.
 
-Lemma aget_merge : forall a b x, aget (merge a b) x = aget a x ++ aget b x \/ aget (merge a b) x = [Unknown].
-Proof. intros a b x. exact (aget_keymap (fun k => aget a k ++ aget b k) (akeys a ++ akeys b) x). Qed.
+Lemma aget_merge : forall a b x, aget (merge a b) x = ounion (aget a x) (aget b x) \/ aget (merge a b) x = [Unknown].
+Proof. intros a b x. exact (aget_keymap (fun k => ounion (aget a k) (aget b k)) (akeys a ++ akeys b) x). Qed.
 
 Lemma local_merge : forall a b x, local (aget (merge a b) x) = true -> local (aget a x) = true /\ local (aget b x) = true.
 Proof.
@@ -418,7 +430,7 @@ Proof.
   - (* SIfNotNone *)
     rewrite forallb_app in Hw. apply andb_true_iff in Hf, Hw, Hst. destruct Hf as [F1 F2], Hw as [W1 W2], Hst as [T1 T2].
     destruct (lookup en x) as [v|] eqn:Ex; [|apply ext_refl].
-    assert (H1 : gpost (merge (astep FS s1 a) (astep FS s2 (refine_none a x))) (aret FS s1 a ++ aret FS s2 (refine_none a x)) n0 h
+    assert (H1 : gpost (merge (astep FS s1 a) (astep FS s2 (refine_none a x))) (ounion (aret FS s1 a) (aret FS s2 (refine_none a x))) n0 h
                    (exec P n s1 en h)).
     { eapply gpost_mono; [| |apply (IH s1 a en h n0); auto].
       - intros en'. apply sound_merge_l.
@@ -562,7 +574,7 @@ Proof. intros. congruence. Qed.
 
 (* ------------------------------------------------------------------------------------------------ the hypotheses are needed *)
 Definition c7 : val := VScal (CNum (7#1)).
-Definition list_copy (x : var) : env -> heap -> option obj :=
+Definition shallow_copy (x : var) : env -> heap -> option obj :=
   fun en h => match lookup en x with
               | Some (VRef l) => match hget h l with Some (OList xs) => Some (OList xs) | _ => None end
               | _ => None end.
@@ -570,7 +582,7 @@ Definition append_val (v : val) : upd := UObj (fun _ _ o => match o with OList x
 
 (* def f(p): y = list(p); e = y[0]; e.append(7)           the translator reports e.append(7) with origins [Fresh] *)
 Definition nested_body : stmt :=
-  SSeq (SAssign "y" (EFresh (list_copy "p")))
+  SSeq (SAssign "y" (EFresh (shallow_copy "p")))
  (SSeq (SAssign "e" (EElem "y" (fun _ _ => Some 0)))
        (SWrite "e" (append_val c7))).
 Definition nested_heap : heap := [OList [VScal (CNum (1#1))]; OList [VRef 0]].     (* p = [[1]] : inner list at 0, outer at 1 *)
